@@ -96,7 +96,8 @@ def main():
         ds["x"] = BaseType("x", src)
         g = GridType("g")
         g["a"] = BaseType("a", src, dims=tuple("m%d" % k for k in range(rank)))
-        for k in range(rank):
+        # (every other dataset declares the maps in another order than the axes of the array: a map belongs to the axis it names)
+        for k in (range(rank) if ci % 2 == 0 else reversed(range(rank))):
             g["m%d" % k] = BaseType("m%d" % k, maps[k])
         ds["g"] = g
         # two structures whose members are namesakes
